@@ -294,10 +294,17 @@ def forbidden_hits(files) -> list[str]:
     return hits
 
 
-def lake(args: list[str], timeout=3000) -> tuple[int, str]:
+def lake(args: list[str], timeout=1500) -> tuple[int, str]:
+    """A build that exceeds the budget counts as failed (its theorems are not discharged), not as an infrastructure
+    error: on the unchanged tree every module builds in well under two minutes."""
     with LeanLock():
-        p = subprocess.run(["lake", *args], cwd=LEAN, capture_output=True, text=True,
-                           timeout=timeout)
+        try:
+            p = subprocess.run(["lake", *args], cwd=LEAN, capture_output=True, text=True,
+                               timeout=timeout)
+        except subprocess.TimeoutExpired as e:
+            subprocess.run(["pkill", "-f", f"{LEAN}/GettsimVerif"], capture_output=True)
+            out = (e.stdout or b"").decode(errors="replace") if isinstance(e.stdout, bytes) else (e.stdout or "")
+            return 124, out + f"\nerror: lake {' '.join(args)} exceeded the time budget of {timeout} s"
     return p.returncode, p.stdout + p.stderr
 
 
